@@ -1,6 +1,7 @@
 ----------------------------- MODULE GenKeystore -----------------------------
 (* Phase G: every mutator history (Put / Delete / Reopen) of Keystore to depth D, printed as JSON
-   with, per step, the result class each implementation must report (fs, mem), the as-built
+   with, per step, the result class each implementation must report (fs, mem; fsok = the set of
+   classes acceptable where a Put is refused for two reasons at once), the as-built
    alternative of an open deviation where one applies (memdev), and the map after the step.
    The harness runs the whole query battery (Has, Get on every name, List, listing of the
    keystore directory and of its parent) on both keystores after every step and compares it
@@ -14,13 +15,14 @@ gvars == <<vars, hist>>
 GInit == Init /\ hist = <<>>
 \* as-built MemKeystore.Delete reports success for a missing key (Dev_C40_MemDeleteMissingOk)
 MemDev(op, n) == IF op = "Delete" /\ n \notin Long /\ mem[n] = NoKey THEN "ok" ELSE ""
-Step(op, n) == hist' = Append(hist, [op |-> op, n |-> n, k |-> res'.k, fs |-> res'.fs, mem |-> res'.mem,
-                                     memdev |-> MemDev(op, n), m |-> m'])
+\* fs = the class in the order of the checks of the code, fsok = every class the spec lets the call report
+Step(op, n, fsok) == hist' = Append(hist, [op |-> op, n |-> n, k |-> res'.k, fs |-> res'.fs, fsok |-> fsok, mem |-> res'.mem,
+                                           memdev |-> MemDev(op, n), m |-> m'])
 
 GNext == /\ Len(hist) < D
-         /\ \/ \E n \in Names : \/ \E k \in Keys : Put(n, k) /\ Step("Put", n)
-                                \/ Delete(n) /\ Step("Delete", n)
-            \/ Reopen /\ Step("Reopen", "")
+         /\ \/ \E n \in Names : \/ \E k \in PutKeys : PutR(n, k, CodeOrder(PutFs(n, k))) /\ Step("Put", n, PutFs(n, k))
+                                \/ Delete(n) /\ Step("Delete", n, {res'.fs})
+            \/ Reopen /\ Step("Reopen", "", {"ok"})
 GSpec == GInit /\ [][GNext]_gvars
 
 Flush == /\ Len(hist) = E
